@@ -10,7 +10,8 @@ def wave(mid):
     if k <= 6: return 4
     if k <= 8: return 5
     if k <= 10: return 6
-    return 7
+    if k <= 12: return 7
+    return 8
 cnt = {}
 for d in sorted(glob.glob(os.path.join(V, "seeded", "C*-*"))):
     mid = os.path.basename(d)
